@@ -10,6 +10,9 @@ import (
 	"verifsim/simio"
 )
 
+// ErrBeyondEnd is returned by the BeyondEndErr flavour for reads that start past the end.
+var ErrBeyondEnd = fmt.Errorf("simdisk: offset beyond the end of the device")
+
 // Disk implements io.ReaderAt over stored bytes.
 type Disk struct {
 	run  *rt.Run
@@ -19,6 +22,11 @@ type Disk struct {
 	// EOFEager: a read that is fully satisfied and ends exactly at end of
 	// file returns (len(p), io.EOF) - explicitly allowed by io.ReaderAt.
 	EOFEager bool
+
+	// BeyondEndErr: a read that STARTS beyond the end of the device fails with
+	// a non-EOF error ("invalid offset"), as mmap-style or range-request
+	// backed ReaderAts do.  Reads at or before the end behave as usual.
+	BeyondEndErr bool
 
 	failLo, failHi int // EIO when a read overlaps [failLo,failHi)
 	Calls          int
@@ -106,6 +114,11 @@ func (d *Disk) ReadAt(p []byte, off int64) (int, error) {
 		r.Fault("disk.eio")
 		r.Event("readat", "eio", fmt.Sprintf("%s off=%d len=%d", d.name, off, len(p)))
 		return n, simio.ErrIO
+	}
+	if d.BeyondEndErr && off > int64(len(d.Data)) {
+		r.Stats["disk.beyond_end_error_returned"]++
+		r.Event("readat", "beyond-end-error", fmt.Sprintf("%s off=%d len=%d", d.name, off, len(p)))
+		return 0, ErrBeyondEnd
 	}
 	if off >= int64(len(d.Data)) {
 		r.Event("readat", "eof", fmt.Sprintf("%s off=%d len=%d", d.name, off, len(p)))
